@@ -229,7 +229,8 @@ func init() {
 		Title: "Aggregate history is append-only, time-ordered and correctly retrievable",
 		Funcs: fcNP("x/oracle/keeper.Keeper.SetAggregate", "x/oracle/keeper.Keeper.FlagAggregateReport",
 			"x/oracle/keeper.Keeper.GetTimestampBefore", "x/oracle/keeper.Keeper.GetTimestampAfter", "x/oracle/keeper.Keeper.GetCurrentAggregateReport",
-			"x/oracle/keeper.Keeper.GetAggregateBefore", "x/oracle/keeper.Keeper.GetAggregateByIndex"),
+			"x/oracle/keeper.Keeper.GetAggregateBefore", "x/oracle/keeper.Keeper.GetAggregateByIndex", "x/oracle/keeper.Keeper.GetAggregateByTimestamp",
+			"x/oracle/keeper.Keeper.GetAggregateBeforeByReporter"),
 		Assumptions: []string{
 			"collections Walk over a (prefix, uint64) range visits exactly the stored keys within the bounds, in increasing (Descending: decreasing) order of the uint64 component, and returns only the callback's error (collections v0.4.0; Iterate's ErrInvalidIterator for start > end is not modelled)",
 			"an index iterator (Indexes.X.MatchExact) yields exactly the stored keys whose index function -- the closure layer passes to indexes.NewMulti, evaluated from its SSA -- equals the reference key, each once, as a snapshot taken at creation; order unspecified",
@@ -238,7 +239,7 @@ func init() {
 		},
 		NotDecided: []string{
 			"timestamps strictly increase in creation order: needs block-time monotonicity and at most one aggregate per query per block (SetAggregatedReport is not under contract); SetAggregate itself overwrites an aggregate stored under the same (query, millisecond)",
-			"GetAggregateBeforeByReporter, the no-stake-report and bridge snapshot neighbour lookups (x/bridge/keeper/keeper.go:803-842), GetTimestampBefore's treatment of a stored timestamp 0 as absent",
+			"the no-stake-report lookups and GetTimestampBefore's treatment of a stored timestamp 0 as absent (the by-reporter lookup, the exact-timestamp lookup and the neighbour lookups of the bridge snapshot -- C15 CreateSnapshot -- are decided)",
 			"that no other function writes oracle.Aggregates (writers: SetAggregate, FlagAggregateReport; checked only for the functions under contract through their frames)",
 		},
 	})
